@@ -202,6 +202,25 @@ pub fn run_duplex(case: &DuplexCase) -> Outcome {
             last_change = std::time::Instant::now();
         }
         if last_change.elapsed() > Duration::from_secs(4) || start.elapsed() > Duration::from_secs(120) {
+            // elapsed time alone may be this thread having been descheduled: give the loop 100 more turns and call
+            // it a stall only if they bring no progress either
+            let mut progressed = false;
+            for _ in 0..100 {
+                let more = rt.run();
+                if main.is_finished() || (st.sent.get(), st.got_b.get(), st.reply_got.get()) != last {
+                    progressed = true;
+                    break;
+                }
+                rt.poll_with(Some(if more { Duration::ZERO } else { Duration::from_millis(10) }));
+            }
+            if main.is_finished() {
+                break;
+            }
+            if progressed && start.elapsed() <= Duration::from_secs(120) {
+                last = (st.sent.get(), st.got_b.get(), st.reply_got.get());
+                last_change = std::time::Instant::now();
+                continue;
+            }
             stalled = true;
             break;
         }
